@@ -1,21 +1,23 @@
 /-
-  C06 (round 2) — every topology and nil texture literals INSIDE the quantifier.
+  C06 (round 2) — every topology and nil texture literals INSIDE the quantifier; after the repair
+  "fix: gltf writer sets the primitive mode of line meshes and rejects quad meshes" the topology clause is a THEOREM.
 
-  `writeSceneT` (Model/GltfTopo.lean) is the writer with a three-valued outcome: a file written from a state `w`, an error,
-  or a panic (`PrimitiveCount()` on an undeclared topology value; `AddTexture(nil)` for a `PolyformNormal{}` /
-  `PolyformOcclusion{}` literal).  In the last two cases nothing is written — `Outcome.err` / `Outcome.panic` carry no state.
+  `writeSceneT` (Model/GltfTopo.lean) is the writer with a three-valued outcome: a file written from a state `w`, an error
+  (incl. `.quad`: a quad mesh, rejected right after the nil-mesh check), or a panic (`PrimitiveCount()` on an undeclared
+  topology value; `AddTexture(nil)` for a `PolyformNormal{}` / `PolyformOcclusion{}` literal).  In the last two cases nothing
+  is written — `Outcome.err` / `Outcome.panic` carry no state.
 
-  * `writeSceneT_ok_iff`: accepted ⇔ the base model `writeScene` accepts AND every model's mesh has a declared topology.
-  * `gltf_scene_topo_full`: for EVERY scene with well-formed meshes / instances and congruent extension values — no
-    hypothesis on the topology — that `writeSceneT` accepts: valid ∧ carriesScene ∧ dedupOK, and the drawing mode is
-    characterised exactly:
-      `topoCarried` (mode = the glTF mode of the model's topology) ⇔ every visible model is a triangle or point mesh,
-      `modeIndexOK` (number of indices compatible with the written mode) ⇔ every visible model is a point mesh or has a
-      multiple of three indices.
-  * `gltf_line_written_as_triangles`: a LINE mesh with two vertices and indices [0, 1] is accepted, the file is `valid`,
-    but its primitive has no `mode` (TRIANGLES) and two indices: `topoCarried`, `modeIndexOK`, `docModeCountOK` are all false.
-    CANDIDATE DEFECT of formats/gltf/writer.go:524-528 (only PointTopology sets `mode`).
-  * `gltf_unknown_topology_rejected`, `gltf_nil_normal_rejected`: nothing is written for such scenes.
+  * `writeSceneT_ok_iff`: accepted ⇔ the base model `writeScene` accepts AND every model's mesh is a triangle, point, line,
+    line-strip or line-loop mesh (`TopoAccepted`).
+  * `gltf_topo_full : C06_topo_full`: for EVERY accepted scene with well-formed meshes / instances and congruent extension
+    values the mode of every model's primitive IS the glTF mode of the model's topology (`topoCarried`), and the number of
+    indices fits the written mode (`modeIndexOK`, and `docModeCountOK` on the document alone) exactly when the model's own index
+    count fits its topology (`PMesh.indexCountFits`: 3k for triangles, 2k for lines, ≥ 2 for loops / strips) — a property of
+    the INPUT; `gltf_topo_full_wf`: under `IndexCountsWF` all three hold.
+  * `gltf_scene_topo_full`: file ⇒ valid ∧ carriesScene ∧ dedupOK ∧ the above; otherwise error / panic, nothing written.
+  * `gltf_line_written_as_lines`, `gltf_quad_rejected_instance`: the former counterexample scene (LINE mesh, indices [0, 1]) is
+    now written with mode 1 LINES and satisfies every predicate; a quad scene is rejected.
+    (Before the repair the line scene was written without a mode = TRIANGLES with two indices: known finding, fixed.)
 -/
 import PolyVerif.Props.C06Full
 import PolyVerif.Model.GltfTopo
@@ -28,7 +30,7 @@ open Gltf
 
 /-- the first `|visible|` nodes of the written document carry the visible models, position by position (`Carries`:
     name / TRS verbatim, the node's mesh is the glTF mesh written for the model's heap mesh — one primitive, data read back,
-    `mode = 0` iff point topology —, instancing accessors decode to the instance transforms) -/
+    `mode` from the topology —, instancing accessors decode to the instance transforms) -/
 theorem scene_zip_carries (s : Scene) (w : W) (hs : SceneOK s) (h : writeScene s = .ok w) :
     Zip (Carries s w) s.visible (w.nodes.take s.visible.length) := by
   unfold writeScene at h
@@ -100,23 +102,28 @@ theorem gltf_carries_scene_anytopo (s : Scene) (w : W) (hs : SceneOK s) (h : wri
 
 /-! ### the three-valued outcome against the base model -/
 
+/-- the topologies the writer accepts: triangle, point, line, line-strip, line-loop -/
+def TopoAccepted (m : PMesh) : Prop := m.topo ≤ 5 ∧ m.topo ≠ 2
+
 theorem liftOutcome_ok {r : Except Err W} {w : W} : liftOutcome r = .ok w ↔ r = .ok w := by
   cases r with
   | ok w' => simp [liftOutcome]
   | error e => cases e <;> simp [liftOutcome]
 
 theorem addModelT_ok {s : Scene} {w w' : W} {md : Model} :
-    addModelT s w md = .ok w' ↔ addModel s w md = .ok w' ∧ ∀ m, s.meshOf md = some m → m.topo ≤ 5 := by
-  unfold addModelT
+    addModelT s w md = .ok w' ↔ addModel s w md = .ok w' ∧ ∀ m, s.meshOf md = some m → TopoAccepted m := by
+  unfold addModelT TopoAccepted
   cases hm : s.meshOf md with
   | none => simp [liftOutcome_ok]
   | some m =>
     by_cases hk : m.topo ≤ 5
-    · simp [PMesh.topoKnown, hk, liftOutcome_ok]
+    · by_cases hq : m.topo = 2
+      · simp [PMesh.topoKnown, hq]
+      · simp [PMesh.topoKnown, hk, hq, liftOutcome_ok]
     · simp [PMesh.topoKnown, hk]
 
 theorem addModelsT_ok (s : Scene) : ∀ (l : List Model) (w w' : W),
-    addModelsT s w l = .ok w' ↔ addModels s w l = .ok w' ∧ ∀ md ∈ l, ∀ m, s.meshOf md = some m → m.topo ≤ 5
+    addModelsT s w l = .ok w' ↔ addModels s w l = .ok w' ∧ ∀ md ∈ l, ∀ m, s.meshOf md = some m → TopoAccepted m
   | [], w, w' => by simp [addModelsT, addModels]
   | md :: r, w, w' => by
     simp only [addModelsT, addModels]
@@ -144,11 +151,11 @@ theorem addModelsT_ok (s : Scene) : ∀ (l : List Model) (w w' : W),
         have := addModelT_ok.mpr ⟨hA, hall md (by simp)⟩
         rw [hT] at this; cases this
 
-/-- ACCEPTANCE, exactly: `writeSceneT` writes a file from `w` iff the base model does and every model's mesh has one of
-    the six declared topologies (otherwise `PrimitiveCount()` panics when that model is reached, or an earlier model is
-    rejected: either way nothing is written). -/
+/-- ACCEPTANCE, exactly: `writeSceneT` writes a file from `w` iff the base model does and every model's mesh is a triangle,
+    point, line, line-strip or line-loop mesh (a quad mesh is rejected with an error, an undeclared topology value makes
+    `PrimitiveCount()` panic when that model is reached, or an earlier model is rejected: either way nothing is written). -/
 theorem writeSceneT_ok_iff (s : Scene) (w : W) :
-    writeSceneT s = .ok w ↔ writeScene s = .ok w ∧ ∀ md ∈ s.models, ∀ m, s.meshOf md = some m → m.topo ≤ 5 := by
+    writeSceneT s = .ok w ↔ writeScene s = .ok w ∧ ∀ md ∈ s.models, ∀ m, s.meshOf md = some m → TopoAccepted m := by
   unfold writeSceneT writeScene addScene
   cases hT : addModelsT s {} s.models with
   | ok w1 =>
@@ -181,8 +188,14 @@ theorem writeSceneT_ok_iff (s : Scene) (w : W) :
 theorem gltf_unknown_topology_rejected (s : Scene) (md : Model) (m : PMesh) (hmd : md ∈ s.models)
     (hm : s.meshOf md = some m) (ht : 5 < m.topo) : ∀ w, writeSceneT s ≠ .ok w := by
   intro w h
-  have := ((writeSceneT_ok_iff s w).mp h).2 md hmd m hm
+  have := (((writeSceneT_ok_iff s w).mp h).2 md hmd m hm).1
   omega
+
+/-- REJECTION of quad meshes (glTF has no quad mode): nothing is written for a scene one of whose models has a quad mesh -/
+theorem gltf_quad_rejected (s : Scene) (md : Model) (m : PMesh) (hmd : md ∈ s.models)
+    (hm : s.meshOf md = some m) (ht : m.topo = 2) : ∀ w, writeSceneT s ≠ .ok w := by
+  intro w h
+  exact (((writeSceneT_ok_iff s w).mp h).2 md hmd m hm).2 ht
 
 /-! ### the drawing mode, characterised -/
 
@@ -198,7 +211,7 @@ theorem zip_allZip_iff {α β} {R : α → β → Prop} {q : α → β → Bool}
 /-- what `Carries` says about the primitive a node references -/
 theorem carries_nodePrim {s : Scene} {w : W} {md : Model} {n : GNode} (h : Carries s w md n) :
     ∃ m p idx, s.meshOf md = some m ∧ nodePrim s w.doc md n = some (m, p)
-      ∧ p.mode = (if m.topo = 1 then some 0 else none) ∧ p.indices = some idx
+      ∧ p.mode = modeOfTopo m.topo ∧ p.indices = some idx
       ∧ decodeAt w.doc w.buf idx = some m.indices
       ∧ (∃ x, w.doc.accessors[idx]? = some x ∧ x.count = m.indices.length)
       ∧ (∃ gm ∈ w.doc.meshes, gm.prims = [p]) := by
@@ -212,50 +225,42 @@ theorem carries_nodePrim {s : Scene} {w : W} {md : Model} {n : GNode} (h : Carri
   · exact ⟨gm, List.mem_of_getElem? a3, b2⟩
 
 theorem expectedMode_written (t : Nat) :
-    (expectedMode t == some (if t = 1 then some 0 else none)) = true ↔ (t = 0 ∨ t = 1) := by
+    (expectedMode t == some (modeOfTopo t)) = true ↔ (t ≤ 5 ∧ t ≠ 2) := by
   match t with
-  | 0 => simp [expectedMode]
-  | 1 => simp [expectedMode]
-  | 2 => simp [expectedMode]
-  | 3 => simp [expectedMode]
-  | 4 => simp [expectedMode]
-  | 5 => simp [expectedMode]
+  | 0 => simp [expectedMode, modeOfTopo]
+  | 1 => simp [expectedMode, modeOfTopo]
+  | 2 => simp [expectedMode, modeOfTopo]
+  | 3 => simp [expectedMode, modeOfTopo]
+  | 4 => simp [expectedMode, modeOfTopo]
+  | 5 => simp [expectedMode, modeOfTopo]
   | n + 6 => simp [expectedMode]
 
-theorem modeCountOK_written (t n : Nat) :
-    modeCountOK (if t = 1 then some 0 else none) n = true ↔ (t = 1 ∨ n % 3 = 0) := by
-  by_cases h : t = 1
-  · simp [h, modeCountOK]
-  · simp [h, modeCountOK]
-
-/-- THE MODE RENDERS THE TOPOLOGY exactly for triangle and point meshes: for every well-formed scene the base model
-    accepts, `topoCarried` holds iff every visible model's mesh is a triangle (0) or point (1) mesh.  Quad, line,
-    line-strip and line-loop meshes are accepted and written without a mode, i.e. as TRIANGLES. -/
+/-- THE MODE RENDERS THE TOPOLOGY: for every well-formed scene the base model accepts, `topoCarried` holds iff every visible
+    model's mesh has an accepted topology (triangle, point, line, line-strip, line-loop).  (`writeSceneT` only accepts such
+    scenes: `gltf_topo_full`.) -/
 theorem gltf_topo_carried_iff (s : Scene) (w : W) (hs : SceneOK s) (h : writeScene s = .ok w) :
-    topoCarried s w.doc = true ↔ ∀ md ∈ s.visible, ∀ m, s.meshOf md = some m → (m.topo = 0 ∨ m.topo = 1) := by
+    topoCarried s w.doc = true ↔ ∀ md ∈ s.visible, ∀ m, s.meshOf md = some m → TopoAccepted m := by
   unfold topoCarried
   refine zip_allZip_iff (R := Carries s w) ?_ (scene_zip_carries s w hs h)
   intro md n hc
   obtain ⟨m, p, idx, hm, hp, hmode, _, _, _, _⟩ := carries_nodePrim hc
-  simp only [hp, hmode, hm, Option.some.injEq, forall_eq', expectedMode_written]
+  simp only [hp, hmode, hm, Option.some.injEq, forall_eq', expectedMode_written, TopoAccepted]
 
-/-- THE INDEX COUNT FITS THE MODE exactly when every visible model is a point mesh or has a multiple of three indices -/
+/-- THE INDEX COUNT FITS THE MODE exactly when every visible model's own index count fits its topology -/
 theorem gltf_mode_index_iff (s : Scene) (w : W) (hs : SceneOK s) (h : writeScene s = .ok w) :
     modeIndexOK s w.doc w.buf = true ↔
-      ∀ md ∈ s.visible, ∀ m, s.meshOf md = some m → (m.topo = 1 ∨ m.indices.length % 3 = 0) := by
+      ∀ md ∈ s.visible, ∀ m, s.meshOf md = some m → m.indexCountFits = true := by
   unfold modeIndexOK
   refine zip_allZip_iff (R := Carries s w) ?_ (scene_zip_carries s w hs h)
   intro md n hc
   obtain ⟨m, p, idx, hm, hp, hmode, hidx, hdec, _, _⟩ := carries_nodePrim hc
-  simp only [hp, hmode, hm, hidx, hdec, Option.some.injEq, forall_eq', modeCountOK_written]
+  simp only [hp, hmode, hm, hidx, hdec, Option.some.injEq, forall_eq', PMesh.indexCountFits]
 
 /-- DOCUMENT LEVEL (what a validator sees, without the scene): if every indexed primitive of the written document has an
-    index count compatible with its mode, then every visible model is a point mesh or has a multiple of three indices.
-    Contrapositive: ONE visible quad / line / line-strip / line-loop (or ill-formed triangle) mesh whose index count is not
-    a multiple of three makes the written document fail the mode / index-count check. -/
+    index count compatible with its mode, then every visible model's own index count fits its topology. -/
 theorem gltf_doc_mode_count_imp (s : Scene) (w : W) (hs : SceneOK s) (h : writeScene s = .ok w)
     (hd : docModeCountOK w.doc = true) :
-    ∀ md ∈ s.visible, ∀ m, s.meshOf md = some m → (m.topo = 1 ∨ m.indices.length % 3 = 0) := by
+    ∀ md ∈ s.visible, ∀ m, s.meshOf md = some m → m.indexCountFits = true := by
   refine (gltf_mode_index_iff s w hs h).mp ?_
   unfold modeIndexOK
   refine allZip_of_zip (R := Carries s w) ?_ (scene_zip_carries s w hs h)
@@ -268,11 +273,10 @@ theorem gltf_doc_mode_count_imp (s : Scene) (w : W) (hs : SceneOK s) (h : writeS
   simp only [hidx, hx] at h2
   rw [← hcount]; exact h2
 
-/-- DOCUMENT LEVEL, sufficient condition: when every heap mesh is a point mesh or has a multiple of three indices, every
-    indexed primitive of the written document has an index count compatible with its mode (every glTF mesh of the document
-    was written for a heap mesh: `scene_dinv`). -/
+/-- DOCUMENT LEVEL, sufficient condition over the heap meshes (every glTF mesh of the document was written for a heap
+    mesh: `scene_dinv`). -/
 theorem gltf_doc_mode_count_of (s : Scene) (w : W) (hs : SceneOK s) (h : writeScene s = .ok w)
-    (hall : ∀ m ∈ s.meshHeap, m.topo = 1 ∨ m.indices.length % 3 = 0) : docModeCountOK w.doc = true := by
+    (hall : ∀ m ∈ s.meshHeap, m.indexCountFits = true) : docModeCountOK w.doc = true := by
   have hd := scene_dinv s w hs h
   unfold docModeCountOK
   rw [List.all_eq_true]
@@ -282,39 +286,66 @@ theorem gltf_doc_mode_count_of (s : Scene) (w : W) (hs : SceneOK s) (h : writeSc
   have hx' : w.doc.accessors[idx]? = some x := hx
   rw [h2]
   simp only [List.all_cons, List.all_nil, Bool.and_true, h4, hx', h5, hcount]
-  exact (modeCountOK_written m.topo m.indices.length).mpr (hall m (List.mem_of_getElem? h1))
+  exact hall m (List.mem_of_getElem? h1)
 
 /-! ### the scene-level statement with every topology inside the quantifier -/
 
 /-- scene hypotheses WITHOUT a topology clause: well-formed meshes and instances, congruent extension values -/
 def SceneWFT (s : Scene) : Prop := SceneOK s ∧ ExtCongr s
 
+/-- THE TOPOLOGY CLAUSE: for every accepted scene the mode of every model's primitive renders the model's topology, and the
+    index count fits the written mode exactly when the model's own index count fits its topology -/
+def C06_topo_full : Prop :=
+  ∀ s w, SceneWFT s → writeSceneT s = .ok w →
+    topoCarried s w.doc = true
+    ∧ (modeIndexOK s w.doc w.buf = true ↔ ∀ md ∈ s.visible, ∀ m, s.meshOf md = some m → m.indexCountFits = true)
+
+/-- `C06_topo_full` IS A THEOREM of the repaired writer (it was false before: a LINE mesh came out as TRIANGLES). -/
+theorem gltf_topo_full : C06_topo_full := by
+  intro s w hs hT
+  obtain ⟨h, hk⟩ := (writeSceneT_ok_iff s w).mp hT
+  refine ⟨(gltf_topo_carried_iff s w hs.1 h).mpr ?_, gltf_mode_index_iff s w hs.1 h⟩
+  intro md hmd m hm
+  exact hk md (List.mem_filter.mp hmd).1 m hm
+
+/-- index counts of the INPUT fit the topologies: 3k indices for a triangle mesh, 2k for a line mesh, at least two for a
+    line loop / strip (points: any) -/
+def IndexCountsWF (s : Scene) : Prop := ∀ m ∈ s.meshHeap, m.indexCountFits = true
+
+/-- with well-formed index counts: mode faithful, index counts fit the mode, also on the document alone -/
+theorem gltf_topo_full_wf (s : Scene) (w : W) (hs : SceneWFT s) (hi : IndexCountsWF s) (hT : writeSceneT s = .ok w) :
+    topoCarried s w.doc = true ∧ modeIndexOK s w.doc w.buf = true ∧ docModeCountOK w.doc = true := by
+  obtain ⟨h, _⟩ := (writeSceneT_ok_iff s w).mp hT
+  obtain ⟨h1, h2⟩ := gltf_topo_full s w hs hT
+  refine ⟨h1, h2.mpr ?_, gltf_doc_mode_count_of s w hs.1 h hi⟩
+  intro md _ m hm
+  refine hi m ?_
+  unfold Scene.meshOf at hm
+  split at hm
+  · cases hm
+  · exact List.mem_of_getElem? hm
+
 /-- full statement for one accepted scene -/
 def C06_topo_full_for (s : Scene) (w : W) : Prop :=
   valid w.doc w.buf = true ∧ carriesScene s w.doc w.buf = true ∧ dedupOK s w.doc = true
-  ∧ (topoCarried s w.doc = true ↔ ∀ md ∈ s.visible, ∀ m, s.meshOf md = some m → (m.topo = 0 ∨ m.topo = 1))
-  ∧ (modeIndexOK s w.doc w.buf = true ↔
-      ∀ md ∈ s.visible, ∀ m, s.meshOf md = some m → (m.topo = 1 ∨ m.indices.length % 3 = 0))
+  ∧ topoCarried s w.doc = true
+  ∧ (modeIndexOK s w.doc w.buf = true ↔ ∀ md ∈ s.visible, ∀ m, s.meshOf md = some m → m.indexCountFits = true)
 
 /-- EVERY TOPOLOGY INSIDE THE QUANTIFIER.  For every scene with well-formed meshes / instances and congruent extension
-    values — whatever the topology values and texture ids — either `writeSceneT` writes nothing (error or panic: the outcome
-    carries no state), or it writes a file that is `valid`, carries the scene (`carriesScene`), is deduplicated (`dedupOK`),
-    every mesh has a declared topology, and the drawing mode is right exactly for triangle / point meshes. -/
+    values — whatever the topology values and texture ids — either `writeSceneT` writes nothing (error, incl. quad meshes, or
+    panic: the outcome carries no state), or it writes a file that is `valid`, carries the scene (`carriesScene`), is
+    deduplicated (`dedupOK`), every mesh has an accepted topology, and the drawing mode renders the topology. -/
 theorem gltf_scene_topo_full (s : Scene) (hs : SceneWFT s) :
-    (∃ w, writeSceneT s = .ok w ∧ C06_topo_full_for s w ∧ ∀ md ∈ s.models, ∀ m, s.meshOf md = some m → m.topo ≤ 5)
+    (∃ w, writeSceneT s = .ok w ∧ C06_topo_full_for s w ∧ ∀ md ∈ s.models, ∀ m, s.meshOf md = some m → TopoAccepted m)
     ∨ (∃ e, writeSceneT s = .err e) ∨ writeSceneT s = .panic := by
   cases hT : writeSceneT s with
   | err e => exact Or.inr (Or.inl ⟨e, rfl⟩)
   | panic => exact Or.inr (Or.inr rfl)
   | ok w =>
     obtain ⟨h, hk⟩ := (writeSceneT_ok_iff s w).mp hT
+    obtain ⟨h1, h2⟩ := gltf_topo_full s w hs hT
     exact Or.inl ⟨w, rfl, ⟨gltf_scene_valid s w hs.1 h, gltf_carries_scene_anytopo s w hs.1 h, gltf_dedup_ok s w hs.1 hs.2 h,
-      gltf_topo_carried_iff s w hs.1 h, gltf_mode_index_iff s w hs.1 h⟩, hk⟩
-
-/-- the UNCONDITIONAL topology clause ("the mode of every written primitive renders its model's topology and fits its
-    index count") — false of the code, see `gltf_line_written_as_triangles` -/
-def C06_topo_full : Prop :=
-  ∀ s w, SceneWFT s → writeSceneT s = .ok w → topoCarried s w.doc = true ∧ modeIndexOK s w.doc w.buf = true
+      h1, h2⟩, hk⟩
 
 /-! ### witnesses -/
 
@@ -356,25 +387,20 @@ theorem lineScene_wf : SceneWFT lineScene := by
 theorem lineScene_observed : (match writeSceneT lineScene with
     | .ok w => (w.meshes.map (fun gm => gm.prims.map (fun p => (p.mode, p.indices))), w.accessors.map (·.count),
                 valid w.doc w.buf, topoCarried lineScene w.doc, modeIndexOK lineScene w.doc w.buf, docModeCountOK w.doc)
-    | _ => ([], [], false, false, false, false)) = ([[(none, some 1)]], [2, 2], true, false, false, false) := by
+    | _ => ([], [], false, false, false, false)) = ([[(some 1, some 1)]], [2, 2], true, true, true, true) := by
   decide +kernel
 
-/-- CANDIDATE DEFECT (formats/gltf/writer.go:524-528).  A LINE mesh (two vertices, indices [0, 1]) satisfies the scene
-    hypotheses and is accepted; the written file is `valid`, but the primitive has no `mode` (= TRIANGLES) and an index
-    accessor with two indices: the mode does not render the topology and the index count does not fit the mode.
-    Hence `C06_topo_full` is false. -/
-theorem gltf_line_written_as_triangles : ¬ C06_topo_full := by
-  intro hfull
+/-- the former counterexample (known finding, fixed): the LINE mesh with two vertices and indices [0, 1] is accepted and written
+    with `mode = 1` LINES; the file is valid, the mode renders the topology and the two indices fit the mode -/
+theorem gltf_line_written_as_lines : ∃ w, writeSceneT lineScene = .ok w ∧ SceneWFT lineScene ∧ IndexCountsWF lineScene
+    ∧ topoCarried lineScene w.doc = true ∧ modeIndexOK lineScene w.doc w.buf = true ∧ docModeCountOK w.doc = true := by
   have hobs := lineScene_observed
+  have hi : IndexCountsWF lineScene := by
+    intro m hm; simp only [lineScene, List.mem_singleton] at hm; subst hm; decide
   cases hT : writeSceneT lineScene with
   | err e => rw [hT] at hobs; simp at hobs
   | panic => rw [hT] at hobs; simp at hobs
-  | ok w =>
-    rw [hT] at hobs
-    have := (hfull lineScene w lineScene_wf hT).1
-    simp only [Prod.mk.injEq] at hobs
-    rw [hobs.2.2.2.1] at this
-    cases this
+  | ok w => exact ⟨w, rfl, lineScene_wf, hi, gltf_topo_full_wf lineScene w lineScene_wf hi hT⟩
 
 /-- non-vacuity of `gltf_scene_topo_full` on a non-triangle, non-point scene: the line scene is accepted -/
 theorem lineScene_ok : ∃ w, writeSceneT lineScene = .ok w ∧ SceneWFT lineScene ∧ C06_topo_full_for lineScene w := by
@@ -382,6 +408,12 @@ theorem lineScene_ok : ∃ w, writeSceneT lineScene = .ok w ∧ SceneWFT lineSce
   · exact ⟨w, h, lineScene_wf, hf⟩
   · have hobs := lineScene_observed; rw [he] at hobs; simp at hobs
   · have hobs := lineScene_observed; rw [hp] at hobs; simp at hobs
+
+/-- a quad mesh (four vertices, four indices): rejected with an error, nothing written -/
+theorem gltf_quad_rejected_instance :
+    (match writeSceneT { lineScene with meshHeap := [{ lineMesh with topo := 2, indices := [0, 1, 0, 1] }] } with
+    | .err .quad => true
+    | _ => false) = true := by decide +kernel
 
 /-! ### nil texture literal -/
 
